@@ -328,16 +328,28 @@ func (w *c03World) Actions(s *dsim.Sim, add func(dsim.Action)) {
 		w.ops++
 		from := names[t.Draw(3, "from")]
 		to := names[(indexOf(names, from)+1+t.Draw(2, "to"))%3]
-		s.Logf("honest dial %s -> %s@%s (served by %s)", from, to, w.addrOf[to], w.pn.BoundName(w.addrOf[to]))
+		// usually the caller expects the owner of the address; sometimes the third party
+		// (a dial that overlaps another caller's dial of the same address with another
+		// expectation shares the transport's per-address dialer)
+		exp := to
+		if t.Bool(1, 3, "expect-third-party") {
+			s.Count("fault:expected-peer-wrong")
+			for _, nm := range names {
+				if nm != from && nm != to {
+					exp = nm
+				}
+			}
+		}
+		s.Logf("honest dial %s -> %s@%s expecting %s (served by %s)", from, to, w.addrOf[to], exp, w.pn.BoundName(w.addrOf[to]))
 		go func() {
 			ctx, cancel := context.WithTimeout(w.ctx, 40*time.Second)
 			defer cancel()
-			lnk, err := w.tcs[from].Ctrl.DialPeerAddr(ctx, w.ident[to], &dialer.DialerOpts{Address: string(w.addrOf[to])})
+			lnk, err := w.tcs[from].Ctrl.DialPeerAddr(ctx, w.ident[exp], &dialer.DialerOpts{Address: string(w.addrOf[to])})
 			if err == nil && lnk != nil {
 				s.Count("done:honest-dial")
-				if lnk.GetRemotePeer() != w.ident[to] {
+				if lnk.GetRemotePeer() != w.ident[exp] {
 					w.fail(&dsim.Violation{Property: "C03", Rule: "dial-returned-other-peer", Witness: "DialPeerAddr",
-						Detail: fmt.Sprintf("%s dialed %s and got a link to %s", from, to, w.net.Names[lnk.GetRemotePeer().String()])})
+						Detail: fmt.Sprintf("%s dialed %s requiring the remote peer to be %s and got a link to %s", from, w.addrOf[to], exp, w.net.Names[lnk.GetRemotePeer().String()])})
 				}
 			}
 		}()
